@@ -148,6 +148,9 @@ int write_srec(Memory *memory, FILE *out, int srec_size)
         len = -1;
       }
 
+      // Nothing was assembled into this page: go on with the next one.
+      if (!memory->in_use(n)) { n |= memory->get_page_size() - 1; }
+
       continue;
     }
 
